@@ -76,6 +76,11 @@ class MessageManager(interfaces.TokenInterface, interfaces.MessageManager):
         return self.token_manager.client_credentials
 
     async def shutdown(self):
+        if self._active_exchanges is None:
+            # Shut down already (or being shut down by another caller of
+            # Context.shutdown): nothing left to stop here.
+            return
+
         for messageerror_monitor, cancellable in self._active_exchanges.values():
             # Not calling messageerror_monitor: This is not message specific,
             # and its shutdown will take care of these things
